@@ -331,7 +331,9 @@ async fn receiver_actor(flow: Arc<Mutex<FlowState>>, mut rx: base::Receiver<Item
         }
         let res = if recv_cancel && kit::coin(1, 10) {
             // base::Receiver::recv keeps its state in the receiver: cancelling it must lose nothing.
-            match kit::cancel_after(rx.recv(), kit::draw_range(1, 4)).await {
+            // (Also deep into a streamed item, when the queue to the deserialisation thread may be full.)
+            let k = if kit::coin(1, 3) { kit::draw_range(20, 400) } else { kit::draw_range(1, 4) };
+            match kit::cancel_after(rx.recv(), k).await {
                 Some(r) => r,
                 None => {
                     kit::fault_fired("cancel_recv");
